@@ -1,4 +1,5 @@
 // C04 — tree-automata simulations returned are the greatest downward/upward simulations
+#include <memory>
 #include "tree_common.hh"
 #include <vata/sim_param.hh>
 
@@ -36,6 +37,25 @@ void compare(eng::Ctx& ctx, const std::string& dir, const ref::TA& V, int n,
 	ctx.count("relations_compared");
 	if (!extra.empty()) ctx.fail("sim:" + dir + ":too-big", dir + " simulation relates " + extra + " which the greatest simulation does not; automaton " + V.str().substr(0, 1500));
 	if (!missing.empty()) ctx.fail("sim:" + dir + ":too-small", dir + " simulation lacks " + missing + " of the greatest simulation; automaton " + V.str());
+}
+
+// the relation is a value: a copy (constructed or assigned) must answer the same after its original is gone
+void as_value(eng::Ctx& ctx, const std::string& dir, const ref::TA& V, int n,
+	const VATA::AutBase::StateDiscontBinaryRelation& sim, const ref::Rel& want, uint32_t how)
+{
+	typedef VATA::AutBase::StateDiscontBinaryRelation Rel;
+	if (how % 4 == 0 || n > 12) return;
+	std::unique_ptr<Rel> cp;
+	{
+		eng::LibSection ls(ctx, "relation:copy:" + dir);
+		std::unique_ptr<Rel> orig(new Rel(sim));
+		if (how % 4 == 1) cp.reset(new Rel(*orig));
+		else if (how % 4 == 2) { cp.reset(new Rel); *cp = *orig; }
+		else { std::unique_ptr<Rel> mid(new Rel(*orig)); cp.reset(new Rel(*mid)); }
+		orig.reset();
+	}
+	ctx.count("relation_copies_compared");
+	compare(ctx, dir + ":copy", V, n, *cp, want);
 }
 
 } // namespace
@@ -108,6 +128,7 @@ void harness::run_case(const eng::Raw& raw, eng::Ctx& ctx)
 			sim = a.ComputeSimulation(sp);
 		}
 		compare(ctx, "down", D, nd, sim, wantD);
+		as_value(ctx, "down", D, nd, sim, wantD, c.header[6]);
 	}
 	if (nd == 0 || nu == 0) {
 		// the empty automaton with NumStates = 0: an empty relation must come back (both directions)
@@ -133,5 +154,6 @@ void harness::run_case(const eng::Raw& raw, eng::Ctx& ctx)
 			sim = a.ComputeSimulation(sp);
 		}
 		compare(ctx, "up", U, nu, sim, wantU);
+		as_value(ctx, "up", U, nu, sim, wantU, c.header[6] / 4);
 	}
 }
